@@ -246,9 +246,12 @@ class DisplayOracle:
             outs.extend((self.committed, fr, "helper-frame", 0) for fr in self.frames_now("helper"))
         return outs
 
-    def begin_op(self, op, stages):
+    def begin_op(self, op, stages, optional_frame=False):
         self.op = op
         self.stages = list(stages)
+        # start() of a Live / Status: the statement does not say whether starting draws a first
+        # frame at once or leaves it to the first refresh -- both are accepted
+        self.optional_frame = optional_frame
         self._fcache = {}
         tid = self._tid()
         self._begin_seq[tid] = self.sim.seq
@@ -282,7 +285,7 @@ class DisplayOracle:
     def end_op(self):
         """Every stage of the op must have happened by now."""
         self._fcache = {}
-        if self.stages and (not self._hooked_at_begin.get(self._tid(), True) or not self.hooked
+        if self.stages and (getattr(self, "optional_frame", False) or not self._hooked_at_begin.get(self._tid(), True) or not self.hooked
                             or self._hook_changes_at_begin.get(self._tid()) != self.hook_changes):
             # a refresh that ran while no hook was installed -- at the beginning, at the end, or at
             # some moment in between (the hook was popped / pushed during the operation) --
